@@ -44,7 +44,7 @@ theorem unpadAes_wellformed (d : Bytes) (n : Nat) (h1 : 1 ≤ n) (h16 : n ≤ 16
     cases n with
     | zero => omega
     | succ m => simp [List.replicate_succ', ← List.append_assoc]
-  unfold unpadAes
+  unfold unpadAes UNPAD_MIN UNPAD_MAX
   rw [hlast]
   simp only [hb, List.length_append, List.length_replicate]
   have hdrop : (d ++ List.replicate n (UInt8.ofNat n)).drop (d.length + n - n) = List.replicate n (UInt8.ofNat n) := by
@@ -58,7 +58,7 @@ theorem unpadAes_wellformed (d : Bytes) (n : Nat) (h1 : 1 ≤ n) (h16 : n ≤ 16
     is returned unchanged -/
 theorem unpadAes_malformed (p : Bytes)
     (h : ¬ ∃ d n, 1 ≤ n ∧ n ≤ 16 ∧ p = d ++ List.replicate n (UInt8.ofNat n)) : unpadAes p = p := by
-  unfold unpadAes
+  unfold unpadAes UNPAD_MIN UNPAD_MAX
   split
   · rfl
   · rename_i b hb
@@ -82,7 +82,7 @@ theorem unpadAes_prefix (p : Bytes) : unpadAes p <+: p := by
 
 theorem unpadAes_length (p : Bytes) :
     (unpadAes p).length ≤ p.length ∧ p.length ≤ (unpadAes p).length + 16 := by
-  unfold unpadAes
+  unfold unpadAes UNPAD_MIN UNPAD_MAX
   split
   · omega
   · simp only
@@ -91,6 +91,33 @@ theorem unpadAes_length (p : Bytes) :
       simp only [List.length_take]
       omega
     · omega
+
+
+/-! ## the regenerated tables say what the standard says -/
+
+/-- `get_cfm` as regenerated from pdfdocument.py: V4 knows V2 (RC4) and AESV2, V5 knows AESV3,
+    everything else is refused.  An edit of either if/elif chain breaks this proof. -/
+theorem getCfm_eq (cls : Nat) (name : Bytes) :
+    getCfm cls name =
+      if cls = 4 then
+        if name = nameV2 then some .rc4 else if name = nameAESV2 then some .aes128 else none
+      else
+        if name = nameAESV3 then some .aes256 else none := by
+  unfold getCfm
+  by_cases h4 : cls = 4
+  · simp only [h4, if_true, GET_CFM_V4, lookup, nameV2, nameAESV2]
+    by_cases h1 : name = [86, 50]
+    · subst h1; simp [methodOfPy]
+    · by_cases h2 : name = [65, 69, 83, 86, 50]
+      · subst h2; simp [methodOfPy]
+      · have h1' : ¬ ([86, 50] : Bytes) = name := fun e => h1 e.symm
+        have h2' : ¬ ([65, 69, 83, 86, 50] : Bytes) = name := fun e => h2 e.symm
+        simp [h1, h2, h1', h2']
+  · simp only [h4, if_false, GET_CFM_V5, lookup, nameAESV3]
+    by_cases h1 : name = [65, 69, 83, 86, 51]
+    · subst h1; simp [methodOfPy]
+    · have h1' : ¬ ([65, 69, 83, 86, 51] : Bytes) = name := fun e => h1 e.symm
+      simp [h1, h1']
 
 /-! ## the crypt-filter map of `init_params` holds only methods `get_cfm` can return -/
 
